@@ -591,13 +591,13 @@ def main(argv):
     obs.sort(key=lambda o: -o.get("est_s", 60))
 
     os.makedirs(os.path.join(WORK, "tgt"), exist_ok=True)
-    inst = open(os.path.join(WORK, "tgt", "%s_%s.instance.lock" % (pid, tier)), "w")
+    inst = open(os.path.join(WORK, "tgt", "%s_%s%s.instance.lock" % (pid, tier, ("_only_" + re.sub(r"\W+", "_", only)) if only else "")), "w")
     try:
         fcntl.flock(inst, fcntl.LOCK_EX | fcntl.LOCK_NB)
     except OSError:
         log("another run of %s/%s is in progress; waiting for it" % (pid, tier))
         fcntl.flock(inst, fcntl.LOCK_EX)
-    logdir = os.path.join(WORK, "logs", pid + "_" + tier)
+    logdir = os.path.join(WORK, "logs", pid + "_" + tier + ("_only_" + re.sub(r"\W+", "_", only) if only else ""))
     shutil.rmtree(logdir, ignore_errors=True)
     os.makedirs(logdir, exist_ok=True)
     os.makedirs(os.path.join(WORK, "tgt"), exist_ok=True)
@@ -635,7 +635,7 @@ def main(argv):
         par = max(1, min(len(obs), plan.MAX_PAR))
         slots = []
         for k in range(par):
-            s = os.path.join(WORK, "tgt", "%s_%s_slot%d" % (pid, tier, k))
+            s = os.path.join(WORK, "tgt", "%s_%s%s_slot%d" % (pid, tier, ("_only_" + re.sub(r"\W+", "_", only)) if only else "", k))
             clone_slot(base, s)
             slots.append(s)
     finally:
